@@ -607,6 +607,89 @@ PURE_CALLS = {
 IMPURE_ATTRS = {"append", "extend", "pop", "remove", "insert", "clear", "sort", "reverse", "update", "setdefault", "add", "discard", "popitem", "write", "choice", "shuffle", "sample", "random", "normal", "uniform", "seed", "integers", "permutation", "next", "send", "close", "eliminate_zeros"}
 
 
+PURE_METHODS = {
+    "conjugate", "keys", "values", "items", "get", "copy", "index", "count", "join", "split", "format", "startswith", "endswith", "strip", "lower", "upper",
+    "union", "intersection", "difference", "symmetric_difference", "issubset", "issuperset", "real", "imag", "bit_length", "is_integer", "tolist", "item",
+    "transpose", "adjoint", "conj", "reshape", "flatten", "sqrt", "log2", "ceil", "floor", "isclose", "allclose", "array", "asarray", "zeros", "ones", "eye", "prod",
+    "most_common", "total", "evalf", "subs", "xreplace",
+}
+
+
+def _no_unknown_calls(e: ast.AST) -> bool:
+    """every call inside ``e`` is a builtin / method whose only effect is its result (it may still raise)."""
+    for n in ast.walk(e):
+        if isinstance(n, ast.Call):
+            f = n.func
+            if isinstance(f, ast.Name):
+                if f.id not in PURE_CALLS:
+                    return False
+            elif isinstance(f, ast.Attribute):
+                if f.attr in IMPURE_ATTRS or f.attr not in PURE_METHODS:
+                    return False
+            else:
+                return False
+        if isinstance(n, (ast.Yield, ast.YieldFrom, ast.Await, ast.NamedExpr)):
+            return False
+    return True
+
+
+def _read_names(e: ast.AST) -> Set[str]:
+    """names whose value (or the state reachable from it) ``e`` reads: every loaded name that is not merely the callee"""
+    callee = {id(n.func) for n in ast.walk(e) if isinstance(n, ast.Call) and isinstance(n.func, ast.Name)}
+    return {n.id for n in ast.walk(e) if isinstance(n, ast.Name) and id(n) not in callee}
+
+
+def _base_name(e: ast.AST) -> Optional[str]:
+    while isinstance(e, (ast.Attribute, ast.Subscript)):
+        e = e.value
+    return e.id if isinstance(e, ast.Name) else None
+
+
+def _may_mutate(t: ast.AST, free: Set[str]) -> bool:
+    """could executing ``t`` change a value an expression reading ``free`` depends on? (syntactic: rebinding a name,
+    storing through / deleting from a base in ``free``, or an unknown call whose receiver or arguments mention one)"""
+    for n in ast.walk(t):
+        if isinstance(n, ast.Name) and isinstance(n.ctx, (ast.Store, ast.Del)) and n.id in free:
+            return True
+        if isinstance(n, (ast.Attribute, ast.Subscript)) and isinstance(n.ctx, (ast.Store, ast.Del)) and _base_name(n) in free:
+            return True
+        if isinstance(n, ast.AugAssign) and _base_name(n.target) in free:
+            return True
+        if isinstance(n, ast.Call) and not _no_unknown_calls(ast.Call(func=n.func, args=[], keywords=[])):
+            mentioned = {m.id for a in list(n.args) + [k.value for k in n.keywords] for m in ast.walk(a) if isinstance(m, ast.Name)}
+            if isinstance(n.func, ast.Attribute):
+                b = _base_name(n.func.value)
+                if b is not None:
+                    mentioned.add(b)
+            if mentioned & free:
+                return True
+        if isinstance(n, (ast.Yield, ast.YieldFrom, ast.Await)):
+            return True
+    return False
+
+
+def _stmt_is_inert(t: ast.stmt) -> bool:
+    """binds local names from expressions without unknown calls: nothing outside the frame can tell it ran"""
+    if isinstance(t, ast.Pass):
+        return True
+    if isinstance(t, ast.Assign):
+        return all(all(isinstance(x, (ast.Name, ast.Tuple, ast.List, ast.Starred)) for x in ast.walk(tg) if isinstance(x, ast.expr) and not isinstance(x, ast.expr_context)) for tg in t.targets) and _no_unknown_calls(t.value)
+    if isinstance(t, ast.AnnAssign):
+        return isinstance(t.target, ast.Name) and (t.value is None or _no_unknown_calls(t.value))
+    return False
+
+
+def _can_cross(value: ast.AST, t: ast.stmt) -> bool:
+    """may the evaluation of ``value`` be moved from before statement ``t`` to after it?"""
+    free = _read_names(value)
+    if _no_unknown_calls(value):
+        return not _may_mutate(t, free)
+    # an unknown call may raise or have effects: it may only pass statements nobody can observe and that it cannot influence
+    if not _stmt_is_inert(t):
+        return False
+    return not ({n.id for n in ast.walk(t) if isinstance(n, ast.Name)} & free)
+
+
 def _has_impure_call(e: ast.AST) -> bool:
     for n in ast.walk(e):
         if isinstance(n, ast.Call):
@@ -1465,6 +1548,31 @@ def _inline_temporaries(fn: ast.FunctionDef) -> None:
                         continue
                     if _mutating_use(name, rest):
                         continue
+                    # the evaluation moves from here to its (last) use: every statement in between must let it pass
+                    use_ids = set(map(id, uses))
+                    last_k = max(k for k, r in enumerate(rest) if any(id(n) in use_ids for n in ast.walk(r)))
+                    blocked = False
+                    for k, r in enumerate(rest[: last_k + 1]):
+                        holds_use = any(id(n) in use_ids for n in ast.walk(r))
+                        if k < last_k and not holds_use:
+                            if not _can_cross(s.value, r):
+                                blocked = True
+                        elif k < last_k or not isinstance(r, (ast.Return, ast.Assign, ast.Expr, ast.AugAssign, ast.AnnAssign, ast.Raise, ast.Assert)):
+                            # a statement that uses the value and is passed on the way to a later use, or a compound statement
+                            # holding the use somewhere inside: nothing in it may disturb what the expression reads
+                            if not _no_unknown_calls(s.value) or _may_mutate(r, _read_names(s.value)):
+                                blocked = True
+                        else:
+                            # simple statement holding the last use
+                            if not _no_unknown_calls(s.value):
+                                if not (len(uses) == 1 and _first_evaluated_is(r, name)):
+                                    blocked = True
+                            elif any(_use_in_repeated_region(u, [r]) for u in uses) and _may_mutate(r, _read_names(s.value)):
+                                blocked = True
+                        if blocked:
+                            break
+                    if blocked:
+                        continue
                     sub = _Subst({name: s.value})
                     for k in range(idx + 1, len(stmts)):
                         stmts[k] = sub.visit(stmts[k])
@@ -1786,6 +1894,9 @@ def _sink_assignments(stmts: List[ast.stmt]) -> List[ast.stmt]:
                 stores = {n.id for n in ast.walk(t) if isinstance(n, ast.Name) and isinstance(n.ctx, (ast.Store, ast.Del))}
                 if x in names or (stores & free) or isinstance(t, (ast.FunctionDef, ast.AsyncFunctionDef, ast.ClassDef)):
                     break
+                if not _can_cross(s.value, t):
+                    j = len(stmts)  # a statement the evaluation must not pass: leave the assignment where it is
+                    break
                 j += 1
             if j >= len(stmts):
                 continue
@@ -1796,7 +1907,7 @@ def _sink_assignments(stmts: List[ast.stmt]) -> List[ast.stmt]:
                 in_else = any(isinstance(n, ast.Name) and n.id == x for b in t.orelse for n in ast.walk(b))
                 after = any(isinstance(n, ast.Name) and n.id == x for b in stmts[j + 1:] for n in ast.walk(b))
                 test_stores = {n.id for n in ast.walk(t.test) if isinstance(n, ast.Name) and isinstance(n.ctx, ast.Store)}
-                if not after and in_body != in_else and not (test_stores & free):
+                if not after and in_body != in_else and not (test_stores & free) and (_no_unknown_calls(s.value) and not _may_mutate(t.test, _read_names(s.value)) or _no_unknown_calls(t.test) and not ({n.id for n in ast.walk(t.test) if isinstance(n, ast.Name)} & _read_names(s.value))):
                     del stmts[i]
                     (t.body if in_body else t.orelse).insert(0, s)
                     moved = True
